@@ -305,7 +305,32 @@ def _comment_expr(v, tainted):
     return False
 
 
-def _taint_use_ok(nm, par, tainted):
+def _param_taint_ok(fi, pname, depth):
+    """comment text handed to a package helper as parameter ``pname`` is used there only in the sanctioned ways"""
+    if depth > 3:
+        return False, 'passed on too deep to follow'
+    tainted = {pname}
+    for _ in range(5):
+        before = set(tainted)
+        for s in ast.walk(fi.node):
+            if isinstance(s, ast.Assign) and _comment_expr(s.value, tainted):
+                for t in s.targets:
+                    if isinstance(t, ast.Name):
+                        tainted.add(t.id)
+        if tainted == before:
+            break
+    par = enclosing_map(fi.node)
+    whys = set()
+    for nm in ast.walk(fi.node):
+        if isinstance(nm, ast.Name) and nm.id in tainted and isinstance(nm.ctx, ast.Load):
+            ok, why = _taint_use_ok(nm, par, tainted, depth + 1)
+            if not ok:
+                return False, '%s in %s' % (why, fi.name)
+            whys.add(why.split(' (')[0])
+    return True, ', '.join(sorted(whys)) or 'never read'
+
+
+def _taint_use_ok(nm, par, tainted, depth=0):
     p = par.get(id(nm))
     child = nm
     # climb through string concatenation / conditional expressions (still comment text)
@@ -329,10 +354,24 @@ def _taint_use_ok(nm, par, tainted):
                     i = p.args.index(child)
                     if i < len(fi.params) and fi.params[i] in (TC, 'comment_text', 'comment'):
                         return True, 'argument %s of %s' % (fi.params[i], cn)
+                    if i < len(fi.params) and fi.parent is None:
+                        ok_, why_ = _param_taint_ok(fi, fi.params[i], depth)
+                        if ok_:
+                            return True, 'parameter %s of %s (%s)' % (fi.params[i], cn, why_)
+                        return False, 'argument of %s(...): %s' % (cn, why_)
         return False, 'argument of %s(...)' % cn
     if isinstance(p, ast.keyword):
         if p.arg in (TC, 'comment_text', 'comment'):
             return True, '%s= keyword' % p.arg
+        pp_ = par.get(id(p))
+        if isinstance(pp_, ast.Call) and _REPO is not None and p.value is child:
+            for mod in _REPO.modules.values():
+                fi = mod.funcs.get(call_name(pp_))
+                if fi is not None and fi.parent is None and p.arg in fi.params:
+                    ok_, why_ = _param_taint_ok(fi, p.arg, depth)
+                    if ok_:
+                        return True, 'parameter %s of %s (%s)' % (p.arg, fi.name, why_)
+                    return False, 'keyword %s= of %s: %s' % (p.arg, fi.name, why_)
         return False, 'keyword %s=' % p.arg
     if isinstance(p, (ast.If, ast.While, ast.BoolOp, ast.UnaryOp, ast.Compare, ast.Assert)):
         return True, 'test'
